@@ -22,7 +22,9 @@ import (
 func init() { hx.Register("C16", Run) }
 
 func Run(c *hx.Ctx) error {
-	r := hx.NewRng(c.Seed)
+	// hx.NewRng(s+1) is hx.NewRng(s) advanced by one step; scramble the seed so that consecutive
+	// seeds give unrelated streams
+	r := hx.NewRng(hx.NewRng(c.Seed).U64() ^ 0xC16)
 	c.Stats.Rule = "sequence in which a command failed, or a group was created after a duration change or a delete"
 	depth := 4
 	if c.Tier == "thorough" {
@@ -74,7 +76,7 @@ func (t *tracker) clone() *tracker {
 // Returns false when the sequence must stop (panic).
 func (t *tracker) step(in *metax.Inst, cmd metax.Cmd) bool {
 	c := t.c
-	before := in.DumpData().String()
+	before := in.DumpCatalogue().String()
 	liveGroups, sgDur := groupFacts(in)
 	res := in.Apply(cmd)
 	t.hist = append(t.hist, cmd.Text+" => "+res.String())
@@ -82,16 +84,18 @@ func (t *tracker) step(in *metax.Inst, cmd metax.Cmd) bool {
 	ln := c.Emit("cmd "+cmd.Text, res.String())
 	if res.Panic {
 		c.Count("panic:" + cmd.Kind)
-		c.Violation(ln, "apply_panic", fmt.Sprintf("%s panics: %s after %s", cmd.Kind, res.Err, strings.Join(tail(t.hist, 10), " | ")))
+		class := ""
+		if (cmd.Kind == "CreateShardGroup" || cmd.Kind == "AlterShardKey") && strings.Contains(res.Err, "index_out_of_range") {
+			class = "panic_measurement_without_shardkey" // msti.ShardKeys[0] / [len-1] on a measurement created without a shard key
+		}
+		c.Violation(ln, class, fmt.Sprintf("%s panics: %s after %s", cmd.Kind, res.Err, strings.Join(tail(t.hist, 10), " | ")))
 		return false
 	}
-	after := in.DumpData()
+	after := in.DumpCatalogue()
 	if !res.OK {
 		c.Count("err:" + cmd.Kind)
 		t.failedSeen = true
 		if as := after.String(); as != before {
-			bn := metax.Dump(nil)
-			_ = bn
 			c.Violation(ln, "failed_cmd_changed_catalogue", fmt.Sprintf("%s returned %s but changed the catalogue after %s", cmd.Kind, res, strings.Join(tail(t.hist, 10), " | ")))
 		}
 	} else {
@@ -158,8 +162,8 @@ func (t *tracker) classify(clause string) string {
 			return "group_start_before_int64_range"
 		case t.durChanged:
 			return "group_after_duration_change"
-		case t.cancelled && clause == "disjoint":
-			return "cancel_delete_overlaps_live_group"
+		case t.cancelled:
+			return "cancel_delete_resurrects_stale_group"
 		}
 	case "refs":
 		if t.idxPruned {
@@ -229,6 +233,10 @@ func randomLog(c *hx.Ctx, r *hx.Rng, logLen int) {
 			cmd = pro[i]
 		} else {
 			cmd = u.Gen(kindsModelled)
+		}
+		if in.PickMatters(cmd) {
+			c.Count("stop:map-order-pick")
+			break
 		}
 		if !t.step(in, cmd) {
 			break
